@@ -618,11 +618,32 @@ def run_map_case(desc, cfg, mode, base):
         with ThreadPoolExecutor(4) as ex:
             c1 = map_obs(pc, lc, desc, parallel=True, executor=ex)
             c2 = map_obs(pc, lc, desc, parallel=True, executor=ex)
-    return {"u": u, "c1": c1, "c2": c2}
+    out = {"u": u, "c1": c1, "c2": c2}
+    # a mutation between map runs: update_bound on a function that has a bound parameter, on the cached pipeline and on its
+    # uncached twin; the cached map must return what the twin returns (the element cache is keyed by the selected kwargs,
+    # which include the bound values)
+    bound = [(f, b[0]) for f in d["funcs"] for b in f["bound"]]
+    if bound:
+        f, pname = bound[0]
+        oname = f["outputs"][0] if len(f["outputs"]) == 1 else tuple(f["outputs"])
+        try:
+            for pp in (pu, pc):
+                pp[oname].update_bound({pname: "bound-after-update"})
+            out["u3"] = map_obs(pu, lu, desc, parallel=False)
+            out["c3"] = map_obs(pc, lc, desc, parallel=False)
+        except Exception as e:  # noqa: BLE001
+            out["mut_err"] = exc_enum(e)
+    return out
 
 
 def judge_map(ctx, case, elems, impl, c01, elems_resp):
     desc, cfg, mode = case["desc"], case["cache"], case["mode"]
+    if "u3" in impl:
+        ctx.count("map:update_bound-between-runs")
+        if "err" not in impl["u3"] and impl["c3"].get("outputs") != impl["u3"].get("outputs"):
+            ctx.violation(case, "map after update_bound returns a value computed with the old bound value when caching is on "
+                          "(the uncached twin returns the new one)", impl={"cached": impl["c3"], "uncached": impl["u3"]})
+            return
     ctx.count(f"map:{mode}:{cfg['type']}")
     if "construct" in impl:
         ctx.violation(case, f"valid map pipeline refused at construction: {impl['construct']}")
@@ -809,7 +830,8 @@ def report_failures(ctx, pending, base):
 def run_maps(ctx, rng, base):
     cases = []
     for k in range(ctx.n(60, 1500)):
-        desc = repeat_inputs(mapgen.gen_case(rng, max_funcs=3, kinds=["elem", "elem", "outer", "partial", "full", "scalar"]), rng)
+        desc = repeat_inputs(mapgen.gen_case(rng, max_funcs=3, kinds=["elem", "elem", "outer", "partial", "full", "scalar"],
+                                              p_bound=0.1 if k % 2 else 0.6), rng)
         r = rng.random()
         mode = "seq" if k % 3 else "threads"
         if mode == "threads":
